@@ -9,7 +9,9 @@ Open Scope N_scope.
 (* one stimulus of the driver; OTake carries the call the driver saw being served *)
 Inductive op :=
 | OSubmit (h : N) (b : bid) | OTake (h : N) | OTakeNone | OAbandon (h : N)
-| ODecision (sid : N) (d : bytes) (st : Z) | ORecvErr (sid : N).
+| ODecision (sid : N) (d : bytes) (st : Z) | ORecvErr (sid : N)
+(* a decision whose two halves the driver separated (stream parked at the service's log call) *)
+| OLookup (sid : N) (d : bytes) (st : Z) | OCallback (sid : N).
 
 (* co_res: 0 ProcessBid returned a non-context error, 1 returned the context error,
            2 returned the channel, 3 still blocked in its select at the end of the case
@@ -30,6 +32,8 @@ Definition events_of (o : op) : list event :=
   | OAbandon h => [Abandon h]
   | ODecision sid d st => [Lookup sid d st; Callback sid]
   | ORecvErr sid => [RecvErr sid]
+  | OLookup sid d st => [Lookup sid d st]
+  | OCallback sid => [Callback sid]
   end.
 
 Definition model_state (c : case) : svc := run rules_validators (flat_map events_of (ops c)).
@@ -57,7 +61,7 @@ Fixpoint dedup_first (seen l : list N) : list N :=   (* order of first appearanc
   | x :: r => if existsb (N.eqb x) seen then dedup_first seen r else x :: dedup_first (x :: seen) r
   end.
 Definition stream_ids (l : list op) : list N :=
-  dedup_first [] (flat_map (fun o => match o with ODecision sid _ _ | ORecvErr sid => [sid] | _ => [] end) l).
+  dedup_first [] (flat_map (fun o => match o with ODecision sid _ _ | OLookup sid _ _ | ORecvErr sid => [sid] | _ => [] end) l).
 
 Definition predict_call (s : svc) (h : N) : call_obs :=
   let res := match nget h (calls s) with
@@ -112,7 +116,7 @@ Definition chk_fields (c : case) : bool :=
 (* at most one value per channel, every value is a well-formed decision sent for that digest, no
    decision is consumed by two calls, no panic *)
 Definition decisions_for (l : list op) (d : bytes) (st : Z) : nat :=
-  length (filter (fun o => match o with ODecision _ d' st' => bytes_eqb d d' && (st =? st')%Z | _ => false end) l).
+  length (filter (fun o => match o with ODecision _ d' st' | OLookup _ d' st' => bytes_eqb d d' && (st =? st')%Z | _ => false end) l).
 Definition deliveries_for (c : case) (d : bytes) (st : Z) : nat :=
   length (filter (fun co => match bid_of (ops c) (co_h co), co_vals co with
                             | Some b, [st'] => bytes_eqb d (b_dig b) && (st =? st')%Z
@@ -130,7 +134,7 @@ Definition chk_delivery (c : case) : bool :=
 (* the decision stream survives every well-formed decision *)
 Definition stream_has_cause (l : list op) (sid : N) : bool :=
   existsb (fun o => match o with
-                    | ODecision sid' d st => (sid' =? sid) && negb (provider_response_ok d st)
+                    | ODecision sid' d st | OLookup sid' d st => (sid' =? sid) && negb (provider_response_ok d st)
                     | ORecvErr sid' => sid' =? sid
                     | _ => false end) l.
 Definition chk_stream (c : case) : bool :=
@@ -162,4 +166,4 @@ Definition violations (cs : list case) : list (N * string) :=
 Definition nontrivial (cs : list case) : list N :=
   map id (filter (fun c =>
     existsb (fun hb => ebid_ok (to_engine (snd hb))) (submitted (ops c)) &&
-    existsb (fun o => match o with ODecision _ _ _ | OAbandon _ => true | _ => false end) (ops c)) cs).
+    existsb (fun o => match o with ODecision _ _ _ | OLookup _ _ _ | OAbandon _ => true | _ => false end) (ops c)) cs).
